@@ -33,7 +33,7 @@ TRUSTED = [
 ]
 ASSUME = [
     "C01_fragment_rows hypotheses: collection names do not end in a digit and do not start with '_' (bases_ok); the column member is declared with the column's type",
-    "fragment: at most one Where per Count (func_adl fuses chained Where into `and`, which is outside F1)",
+    "fragment guards: one comparison / negated comparison / flat and-or of those per Where (chained Where calls are fused into `and` by func_adl and are inside the fragment); nested and/or mixtures are outside",
     "C01_query_job hypotheses: query_ok (the same name conditions), member names pairwise distinct, no event on which the reference semantics is stuck (a bank holding a non-collection, a condition on an uninterpreted value)",
 ]
 
